@@ -1,6 +1,7 @@
 package rules
 
 import (
+	"fmt"
 	"go/ast"
 	"go/token"
 	"go/types"
@@ -847,53 +848,180 @@ func (r *Run) checkBinarySearch(f *prog.FuncInfo) {
 	r.checkSearchPolarity(f, loop, lowObj, highObj)
 }
 
-// checkSearchPolarity: the branch taken when cmp(elem,target) < 0 must move low, the other high.
+// checkSearchPolarity: evaluate the loop body for the three possible signs of the comparison
+// result (probe below / equal to / above the target). Conditions over `cmpVar <op> 0` are
+// decided exactly (any spelling: negations, &&, ||, else-chains, switch-less if chains);
+// below must move low, above must move high, equal must return. Anything else that guards a
+// bound update is "undecided".
 func (r *Run) checkSearchPolarity(f *prog.FuncInfo, loop *ast.ForStmt, lowObj, highObj types.Object) {
 	info := f.Pkg.TypesInfo
-	// find `if cmpValue < 0 { low = ... } else { high = ... }`
-	assigns := func(n ast.Node, obj types.Object) bool {
+	var eval func(e ast.Expr, sign int) (bool, bool)
+	eval = func(e ast.Expr, sign int) (bool, bool) {
+		e = ast.Unparen(e)
+		switch x := e.(type) {
+		case *ast.UnaryExpr:
+			if x.Op == token.NOT {
+				v, ok := eval(x.X, sign)
+				return !v, ok
+			}
+		case *ast.BinaryExpr:
+			switch x.Op {
+			case token.LAND, token.LOR:
+				a, ok1 := eval(x.X, sign)
+				b, ok2 := eval(x.Y, sign)
+				if !ok1 || !ok2 {
+					return false, false
+				}
+				if x.Op == token.LAND {
+					return a && b, true
+				}
+				return a || b, true
+			case token.LSS, token.LEQ, token.GTR, token.GEQ, token.EQL, token.NEQ:
+				lhs, rhs := x.X, x.Y
+				op := x.Op
+				zero := func(y ast.Expr) bool {
+					tv, ok := info.Types[y]
+					return ok && tv.Value != nil && tv.Value.String() == "0"
+				}
+				isCmp := func(y ast.Expr) bool {
+					y = ast.Unparen(y)
+					if id, ok := y.(*ast.Ident); ok {
+						if v, ok := info.Uses[id].(*types.Var); ok && !v.IsField() {
+							if b, ok := v.Type().Underlying().(*types.Basic); ok && b.Kind() == types.Int {
+								return v != lowObj && v != highObj
+							}
+						}
+					}
+					_, isCall := y.(*ast.CallExpr)
+					return isCall
+				}
+				if zero(lhs) && isCmp(rhs) { // 0 <op> cmp  ==  cmp <flip op> 0
+					lhs, rhs = rhs, lhs
+					switch op {
+					case token.LSS:
+						op = token.GTR
+					case token.LEQ:
+						op = token.GEQ
+					case token.GTR:
+						op = token.LSS
+					case token.GEQ:
+						op = token.LEQ
+					}
+				}
+				if !isCmp(lhs) || !zero(rhs) {
+					return false, false
+				}
+				switch op {
+				case token.LSS:
+					return sign < 0, true
+				case token.LEQ:
+					return sign <= 0, true
+				case token.GTR:
+					return sign > 0, true
+				case token.GEQ:
+					return sign >= 0, true
+				case token.EQL:
+					return sign == 0, true
+				case token.NEQ:
+					return sign != 0, true
+				}
+			}
+		}
+		return false, false
+	}
+	touches := func(n ast.Node) bool {
 		found := false
 		ast.Inspect(n, func(m ast.Node) bool {
-			if as, ok := m.(*ast.AssignStmt); ok && len(as.Lhs) == 1 && prog.IdentObj(info, as.Lhs[0]) == obj {
+			switch x := m.(type) {
+			case *ast.AssignStmt:
+				for _, l := range x.Lhs {
+					if o := prog.IdentObj(info, l); o == lowObj || o == highObj {
+						found = true
+					}
+				}
+			case *ast.ReturnStmt:
 				found = true
 			}
 			return true
 		})
 		return found
 	}
-	checked := false
-	ast.Inspect(loop.Body, func(nd ast.Node) bool {
-		is, ok := nd.(*ast.IfStmt)
-		if !ok || is.Else == nil {
-			return true
+	type effect struct{ low, high, ret, undecided bool }
+	var run func(list []ast.Stmt, sign int, ef *effect) (stopped bool)
+	run = func(list []ast.Stmt, sign int, ef *effect) bool {
+		for _, st := range list {
+			switch x := st.(type) {
+			case *ast.AssignStmt:
+				for _, l := range x.Lhs {
+					switch prog.IdentObj(info, l) {
+					case lowObj:
+						ef.low = true
+					case highObj:
+						ef.high = true
+					}
+				}
+			case *ast.ReturnStmt:
+				ef.ret = true
+				return true
+			case *ast.BranchStmt:
+				return true
+			case *ast.IfStmt:
+				if x.Init != nil {
+					if run([]ast.Stmt{x.Init}, sign, ef) {
+						return true
+					}
+				}
+				v, ok := eval(x.Cond, sign)
+				if !ok {
+					if touches(x) {
+						ef.undecided = true
+					}
+					continue
+				}
+				if v {
+					if run(x.Body.List, sign, ef) {
+						return true
+					}
+				} else if x.Else != nil {
+					switch e := x.Else.(type) {
+					case *ast.BlockStmt:
+						if run(e.List, sign, ef) {
+							return true
+						}
+					case *ast.IfStmt:
+						if run([]ast.Stmt{e}, sign, ef) {
+							return true
+						}
+					}
+				}
+			case *ast.BlockStmt:
+				if run(x.List, sign, ef) {
+					return true
+				}
+			case *ast.SwitchStmt:
+				if touches(x) {
+					ef.undecided = true
+				}
+			}
 		}
-		b, ok := ast.Unparen(is.Cond).(*ast.BinaryExpr)
-		if !ok {
-			return true
+		return false
+	}
+	names := map[int]string{-1: "below", 0: "equal to", 1: "above"}
+	for _, sign := range []int{-1, 0, 1} {
+		var ef effect
+		run(loop.Body.List, sign, &ef)
+		r.SiteStr(fmt.Sprintf("%s: probe %s the target -> low moved %v, high moved %v, returns %v", f.Name(), names[sign], ef.low, ef.high, ef.ret))
+		if ef.undecided {
+			r.Error("undecided: %s: a condition guarding the bound updates is not a comparison of the cmp result with 0", f.Name())
+			return
 		}
-		tv, okc := info.Types[b.Y]
-		if !okc || tv.Value == nil || tv.Value.String() != "0" {
-			return true
+		switch {
+		case sign < 0 && !(ef.low && !ef.high && !ef.ret):
+			r.Fail(f.Name()+":polarity-below", loop.Pos(), nil, "when the probed element compares below the target the search must continue in the upper half (move low only); it moves low=%v high=%v returns=%v: present keys are reported absent", ef.low, ef.high, ef.ret)
+		case sign > 0 && !(ef.high && !ef.low && !ef.ret):
+			r.Fail(f.Name()+":polarity-above", loop.Pos(), nil, "when the probed element compares above the target the search must continue in the lower half (move high only); it moves low=%v high=%v returns=%v", ef.low, ef.high, ef.ret)
+		case sign == 0 && !ef.ret:
+			r.Fail(f.Name()+":found", loop.Pos(), nil, "when the probed element equals the target the search must return it")
 		}
-		var negBranch, posBranch ast.Node
-		switch b.Op {
-		case token.LSS:
-			negBranch, posBranch = is.Body, is.Else
-		case token.GTR:
-			negBranch, posBranch = is.Else, is.Body
-		default:
-			return true
-		}
-		if !(assigns(negBranch, lowObj) || assigns(negBranch, highObj)) {
-			return true
-		}
-		checked = true
-		if !assigns(negBranch, lowObj) || !assigns(posBranch, highObj) {
-			r.Fail(f.Name()+":polarity", is.Pos(), nil, "when the probed element compares below the target the search must continue in the upper half (move low); the branches are swapped")
-		}
-		return true
-	})
-	if !checked {
-		r.Error("undecided: %s: could not find the `cmp < 0` branch that moves the bounds", f.Name())
 	}
 }
